@@ -177,6 +177,18 @@ l2("l2_pass_token", ["FdlActiveStation::{do_pass_token,next_gap_poll,transmit_ga
 l2("l2_await_status_response", ["FdlActiveStation::{do_await_status_response,await_gap_poll_response,do_pass_token}"], ["C01", "C02", "C05", "C06", "C11", "C12"],
    "universal C01 obligations; reply from the polled address: ready master => set_next_station reported, else NS unchanged, then PassToken without another poll; any other telegram => back off to ActiveIdle; silence for a slot => token passed at once; sweep position unchanged; Inv_FDL preserved")
 
+l2("l2_use_token", ["FdlActiveStation::{do_use_token,apps_transmit_telegram,app_transmit_telegram,schedule_next_application}", "NdApp (harness application)"], ["C01", "C02", "C05", "C13", "C15"],
+   "universal C01 obligations; hold time = previous token receipt + TTR (minus one GAP poll when pending), set on the first poll of a visit; applications asked in round-robin order from next_application, each at most once per poll, low priority only while now < end of hold time, else only the one guaranteed high-priority cycle; a decline advances the turn by one; sender keeps its turn; request expecting a reply => AwaitDataResponse for that address; token passed when all declined once or the hold time is over; 0..3 applications; Inv_FDL preserved", weight=3, timeout_s=2400, unwind=10)
+l2("l2_await_data_response", ["FdlActiveStation::{do_await_data_response,do_use_token,apps_transmit_telegram}", "NdApp (harness application)"], ["C01", "C02", "C05", "C06", "C13", "C15"],
+   "universal C01 obligations; admission: only SC or a response telegram from the awaited address to this station is delivered, once, to the application that sent; anything else => ActiveIdle without callback; time-out after a silent slot delivered once to the sender, then the token is used again at once (guaranteed cycle counted as used); at most one of reply/time-out; 1..3 applications; Inv_FDL preserved", weight=3, timeout_s=2400, unwind=10)
+
+# ---- C20: gsd-parser parameter packing (external crate, public API) ----------------------------------
+h("c20_kernel", "harness.rs", "harness", ["C20"], crate="ext-gsd", timeout_s=300, functions=["UserPrmDataType::{write_value_to_slice,size}"],
+  bounds="ALL 8 data types (bit index 0..7, bit areas first<=last<=7), ALL i64 values, ALL 4-byte windows",
+  obligation="Ok iff value in the type's exact range (signed types: signed range); on Ok the parameter's bits == big-endian two's complement of the value and no other bit changes (BitArea's 'no other bit' part is carved out: known finding F9, asserted by c20_kernel_bitarea_frame_witness); on Err the window is unchanged; size() consistent")
+h("c20_kernel_bitarea_frame_witness", "harness.rs", "harness", ["C20"], crate="ext-gsd", timeout_s=300, functions=["UserPrmDataType::write_value_to_slice"],
+  bounds="ALL bit areas, ALL accepted values, ALL bytes", obligation="witness of known finding F9: writing a bit area changes no bit outside the area")
+
 PROPERTIES = {
     "C09": {
         "claim": "Bounded: for every header (DA/SA 0..127, any SAP options, any function code) and every payload within the stated length/content bounds the real encoder's bytes equal an independent reference frame encoder, the reported lengths agree, and the real decoder returns the identical telegram consuming exactly the frame. Function codes: exhaustive over all bytes and all values.",
@@ -263,6 +275,11 @@ PROPERTIES = {
                         "replies restricted to the FDL admission predicate; an SC answer to a status request sets the bit without an event (outside the property's population model)",
                         "the callback's address is the cursor address (the FDL layer delivers replies/time-outs for the request last sent, C15)"],
         "outside": ["the 252-callback sweep as a whole; lost replies appear as time-outs (one-step)"],
+    },
+    "C20": {
+        "claim": "Bounded/complete for the kernel: for ALL data types, ALL i64 values and ALL 4-byte windows write_value_to_slice accepts exactly the type's value range, writes big-endian two's complement into exactly the parameter's bits and leaves the window unchanged on rejection; builder: for parameter blocks of 4 constant bytes with two parameters at symbolic offsets (may share a byte) with symbolic types, defaults and constraints, PrmBuilder::new and set_prm produce exactly the reference overlay, and every error (constraint, range, unknown name) is a value and leaves the block unchanged.",
+        "assumptions": ["bit indices 0..7 and first <= last (what a GSD file can express)", "builder: concrete heap shape (2 parameters, one-letter names), Arc::drop_slow stubbed to a no-op (all Arcs are leaked on purpose; deallocation is not the subject)"],
+        "outside": ["layouts with more than 2 parameters or offsets > 3; set_prm_from_text's BTreeMap lookup"],
     },
     "C17": {
         "claim": "Bounded: for every diagnostics reply (PDU <= 10 / 40 bytes) the reported flags, ident number and master address equal the reply bytes; extended diagnostics are stored iff flagged, a buffer exists and they fit, otherwise the stored ones are unchanged; iterating ANY stored byte string (<= 8 / 24 bytes) terminates without panic within length+1 calls, yields exactly the blocks an independent reference parser finds (type, position, length, decoded fields), and yields nothing after the first malformed block; also with no buffer attached, with logging enabled.",
